@@ -64,7 +64,33 @@ def prescribedText (H : Bytes → Bytes) (chain : ChainParams) (t : AddrClass) (
   | .p2sh => some (Base58.checkEnc H (UInt8.ofNat chain.scriptAddr) payload)
   | .p2wpkh | .p2wsh => Bech32.encodeAddr chain.bech32Hrp.toList 0 (payload.map UInt8.toNat)
 
-/-- `s` is a valid address text for `chain`, and `a` is what it denotes -/
+/-- the fields of the core-only parameter classes (`bitcoin.core.Core*Params`): what
+    `bitcoin.core.coreparams` offers before the first `SelectParams` call — no message start, ports,
+    base58 prefixes or bech32 prefix -/
+structure CoreFields where
+  name : String
+  maxMoney : Nat
+  powLimit : Nat
+deriving DecidableEq, Repr
+
+/-- the core fields of a full parameter record (of those `Spec.ChainParams` carries) -/
+def coreFields (p : ChainParams) : CoreFields := ⟨p.name, p.maxMoney, p.powLimit⟩
+
+/-- the bare-pubkey scriptPubKey `<pubkey> CHECKSIG` (pubkey of 33 or 65 bytes, pushed directly) -/
+def barePubkeyScript (pubkey : Bytes) : Bytes := UInt8.ofNat pubkey.length :: (pubkey ++ [0xac])
+
+/-- the address the P2PKH converter must give for a bare-pubkey script: the P2PKH address of the
+    hash160 of the FULL pushed public key, under the chain's PUBKEY_ADDR version byte -/
+def barePubkeyAddr (H160 : Bytes → Bytes) (chain : ChainParams) (pubkey : Bytes) : Addr :=
+  ⟨.p2pkh, chain.pubkeyAddr, H160 pubkey⟩
+
+/-- `s` is a valid address text for `chain`, and `a` is what it denotes.
+
+    For the base58 classes there is deliberately NO payload-length clause (DESIGN §8 O2): the library
+    accepts a Base58Check text of the chain's version byte with a payload of any length, and the
+    property constrains prefixes and the round trips of 20-byte hashes, not the payload length of
+    foreign text.  Consequently an address that is `ValidFor` with a payload that is not 20 bytes
+    converts to a script that does not convert back; `C12.roundtrip` is stated for 20-byte payloads. -/
 def ValidFor (H : Bytes → Bytes) (chain : ChainParams) (a : Addr) (s : List Char) : Prop :=
   match a.cls with
   | .p2pkh => a.ver = chain.pubkeyAddr ∧ a.ver < 256 ∧
